@@ -3,7 +3,11 @@
 (* The contract is applied per DECISION instead of per operation: the ghost `abs` takes *)
 (* the sequential effect of a directive at the step where the real system commits to    *)
 (* it (Consume for "none"/Resume, HandlePanicking for Stop / Restart), in that order.   *)
-(* `Linearizable == Quiet => st/inc agree` then says: however the failures overlap, the *)
+(* `(* The part of linearizability that the repaired code guarantees (finding                *)
+(* PendingRestartResurrectsStopped): whoever the contract has stopped stays stopped --    *)
+(* a restartChild goroutine still pending from an earlier decision does not bring it back. *)
+NoResurrection == Quiet => \A a \in Kids : abs.st[a] = "stopped" => S.st[a] = "stopped"
+Linearizable == Quiet => st/inc agree` then says: however the failures overlap, the *)
 (* family ends up as if the decisions had been carried out one after the other.         *)
 (* Children only (no escalation chains), markers and events are not compared.           *)
 (* Known counterexamples are documented in docs/supervision.md (overlap section).       *)
@@ -13,10 +17,12 @@ VARIABLE abs
 
 AllDirs == Dirs \cup {"none"}
 OvConfigs == {c \in [strat : {"one", "all"}, typed : {"Stop", "Restart", "Resume", "none"}, ptyped : {"default", "Restart"},
-                     any : {"none"}, late : {FALSE}, max : {0, 1}, win : {"zero", "long"}, backoff : {FALSE}] :
+                     any : {"none"}, late : {FALSE}, max : {0, 1}, win : {"zero", "long"}, backoff : {FALSE}, mix : {FALSE}] :
                 /\ (c.max = 1) = (c.win = "long")
                 /\ ((c.typed # "Restart" /\ c.ptyped # "Restart") => c.max = 0)}
 OvPConfigs == {[dir |-> "Stop", onsig |-> "ignore"]}
+(* one-for-all groups in which one error type restarts and another one stops *)
+OvStopConfigs == {c \in OvConfigs : c.strat = "all" /\ {c.typed, IF c.ptyped = "default" THEN "Stop" ELSE c.ptyped} = {"Stop", "Restart"}}
 
 EnvFaultOv(a, e) ==
   /\ nops < MaxOps /\ nops' = nops + 1
@@ -48,6 +54,10 @@ OvNext ==
 OvInit == Init /\ abs = InitS
 OvSpec == OvInit /\ [][OvNext]_<<vars, abs>>
 
+(* The part of linearizability that the repaired code guarantees (finding                *)
+(* PendingRestartResurrectsStopped): whoever the contract has stopped stays stopped --    *)
+(* a restartChild goroutine still pending from an earlier decision does not bring it back. *)
+NoResurrection == Quiet => \A a \in Kids : abs.st[a] = "stopped" => S.st[a] = "stopped"
 Linearizable == Quiet => (abs.st = S.st /\ abs.inc = S.inc)
 OvView == <<S, now, mb, sys, sigq, rst, cfg, pcfg, nops, abs>>
 =============================================================================
